@@ -168,6 +168,13 @@ def run_shard(args):
                 except Violation as v:
                     case, f = ctx.last_violation
                     violations.append((ph.name, case, f, True))
+                except hypothesis.errors.Flaky:
+                    # a violation that corrupts process-global state makes later
+                    # executions behave differently; report the violation seen
+                    if ctx.last_violation is None:
+                        raise
+                    case, f = ctx.last_violation
+                    violations.append((ph.name, case, f, False))
             else:
                 n = max(1, int(ph.examples * scale))
                 sd = (seed * 1000003 + shard * 1009 + pi * 17) % (2 ** 63)
